@@ -505,6 +505,8 @@ class Engine:
             if isinstance(v, Agg) and v.tag in ("Unique", "NonNull") and v.f and isinstance(v.f[0], Slot): return v.f[0]
             return v
         if s.startswith(("copy ", "move ", "const ")): return self.operand(fr, s)
+        mfk = re.match(r"^&(?:\(fake\)|fake(?: shallow| deep)?) (.*)$", s)
+        if mfk: return self.place_slot(fr, mfk.group(1))       # fake borrows (match guards) read nothing
         if s.startswith("&mut "): return self.place_slot(fr, s[5:])
         if s.startswith("&raw "): return self.place_slot(fr, s.split(" ", 2)[2])
         if s.startswith("&"): return self.place_slot(fr, s[1:])
